@@ -220,7 +220,8 @@ func (hm *HostsMap) rebuildMatchFiles() (matchFiles []*MatchFile) {
 			e1 := entryList[i]
 			e2 := entryList[j]
 			if e1.headers.equals(e2.headers) {
-				return e1.path > e2.path
+				// case insensitive, see overlaps()
+				return strings.ToLower(e1.path) > strings.ToLower(e2.path)
 			}
 			return e1.hasFilter()
 		})
@@ -314,7 +315,8 @@ func overlaps(e1, e2 *HostsMapEntry) bool {
 		e1.path != e2.path &&
 		e1.match != MatchExact && e2.match != MatchExact &&
 		e1.match != MatchRegex && e2.match != MatchRegex &&
-		strings.HasPrefix(e1.path, e2.path)
+		// one of them is begin, which ignores the case of the request path
+		strings.HasPrefix(strings.ToLower(e1.path), strings.ToLower(e2.path))
 }
 
 func findOrCreateMatchFileIfOverlaps(order *list.List, e1, e2 *HostsMapEntry) {
